@@ -50,6 +50,8 @@ class spmatrix:
         return {'csr': self.tocsr, 'csc': self.tocsc, 'coo': self.tocoo}[fmt]()
 
     def astype(self, t, casting='unsafe', copy=True):
+        # the instrumented modules see shims for the builtin float / int / bool
+        t = {'sfloat': float, 'sint': int, 'sbool': bool}.get(getattr(t, '__name__', None), t)
         try:
             same = np.dtype(t) == self._dtype
         except TypeError:
